@@ -311,8 +311,11 @@ func genKv(r *rand.Rand, tier string) kvInput {
 	// concentrate on one or two keys so histories collide
 	hot := kvKeys[:1+r.Intn(len(kvKeys))]
 	motifAt, motif := -1, -1
-	if r.Intn(5) < 2 {
-		motifAt, motif = r.Intn(n), r.Intn(numMotifs)
+	if r.Intn(2) == 0 {
+		motifAt, motif = r.Intn(n), r.Intn(numMotifs+2)
+		if motif >= numMotifs {
+			motif = motifWindow // the interaction with the most moving parts gets three shares
+		}
 		if motif == motifDDocSwap {
 			in.Handles = 2
 		}
@@ -349,18 +352,15 @@ func genKv(r *rand.Rand, tier string) kvInput {
 		case x == 0 || x == 10:
 			in.Ops = append(in.Ops, Step{Kind: "purge", Handle: r.Intn(in.Handles), Clock: next()})
 		case x == 1 && exists["s1.c2"]:
-			in.Ops = append(in.Ops, Step{Kind: "drop", Coll: "s1.c2", Clock: next()})
+			in.Ops = append(in.Ops, Step{Kind: "drop", Coll: "s1.c2", Handle: r.Intn(in.Handles), Clock: next()})
 			exists["s1.c2"] = false
 		case x == 2 && !exists["s1.c2"]:
-			in.Ops = append(in.Ops, Step{Kind: "create", Coll: "s1.c2", Clock: next()})
+			in.Ops = append(in.Ops, Step{Kind: "create", Coll: "s1.c2", Handle: r.Intn(in.Handles), Clock: next()})
 			exists["s1.c2"] = true
 		case x == 3 || x == 8:
 			in.Ops = append(in.Ops, Step{Kind: "expire", Clock: next()})
 		case x >= 11 && x <= 14:
 			st := Step{Kind: "query", Coll: pick(r, live), Handle: r.Intn(in.Handles), Q: pick(r, []string{"QIds", "QBodies", "QCount", "QIdEq", "QBodyA1", "QXattrRev", "QSync", "QLast2", "QSyncFirst"}), Clock: next()}
-			if st.Coll == "s1.c2" {
-				st.Handle = 0
-			}
 			switch st.Q {
 			case "QIdEq":
 				st.Arg = pick(r, kvKeys)
@@ -371,9 +371,6 @@ func genKv(r *rand.Rand, tier string) kvInput {
 		case x >= 15 && x <= 16:
 			cn := pick(r, live)
 			h := r.Intn(in.Handles)
-			if cn == "s1.c2" {
-				h = 0
-			}
 			if r.Intn(5) == 0 {
 				in.Ops = append(in.Ops, Step{Kind: "delddoc", Coll: cn, Handle: h, DDoc: "dd", Clock: next()})
 			} else {
@@ -388,9 +385,6 @@ func genKv(r *rand.Rand, tier string) kvInput {
 		case x >= 17 && x <= 22:
 			cn := pick(r, live)
 			h := r.Intn(in.Handles)
-			if cn == "s1.c2" {
-				h = 0
-			}
 			vp := genViewParams(r)
 			in.Ops = append(in.Ops, Step{Kind: "view", Coll: cn, Handle: h, DDoc: "dd", View: fmt.Sprintf("v%d", r.Intn(3)), VP: vp, Clock: next()})
 		case x == 9 && in.OnDisk:
@@ -405,9 +399,6 @@ func genKv(r *rand.Rand, tier string) kvInput {
 		default:
 			cn := pick(r, live)
 			h := r.Intn(in.Handles)
-			if cn == "s1.c2" {
-				h = 0 // only the dropping handle uses the droppable collection (stale per-handle cache otherwise)
-			}
 			st := Step{Kind: "kv", Coll: cn, Key: pick(r, hot), Handle: h, Op: genKOp(r), Clock: next()}
 			if windowed(st.Op.Kind) && r.Intn(3) == 0 {
 				// another call on the same key inside this call's read-to-write window
@@ -456,9 +447,6 @@ func genMotif(r *rand.Rand, m int, in *kvInput, exists map[string]bool, hot []st
 	}
 	cn := pick(r, live)
 	h := r.Intn(in.Handles)
-	if cn == "s1.c2" {
-		h = 0
-	}
 	key := pick(r, hot)
 	kv := func(op *KOp) { in.Ops = append(in.Ops, Step{Kind: "kv", Coll: cn, Key: key, Handle: h, Op: op, Clock: next()}) }
 	view := func(hh int, name string, vp *ViewParams) {
@@ -615,7 +603,7 @@ func genMotif(r *rand.Rand, m int, in *kvInput, exists map[string]bool, hot []st
 		}
 		cn, h = "s1.c2", 0
 		kv(&KOp{Kind: "Set", Val: sp(pick(r, jsonBodies))})
-		in.Ops = append(in.Ops, Step{Kind: "drop", Coll: "s1.c2", Clock: same()})
+		in.Ops = append(in.Ops, Step{Kind: "drop", Coll: "s1.c2", Handle: r.Intn(in.Handles), Clock: same()})
 		exists["s1.c2"] = false
 		in.Ops = append(in.Ops, Step{Kind: "reopen", Clock: same()})
 		cn = "_default._default"
@@ -688,13 +676,13 @@ func genMotif(r *rand.Rand, m int, in *kvInput, exists map[string]bool, hot []st
 			default:
 				nested = &KOp{Kind: "WriteCas", CasMode: "current", Val: sp(pick(r, jsonBodies))}
 			}
-			switch r.Intn(4) {
+			switch r.Intn(5) {
 			case 0:
 				kvn(&KOp{Kind: "Update", Exp: genExp(r), Cb: &Callback{Kind: pick(r, []string{"set", "append", "delete"}), Val: sp(pick(r, jsonBodies))}}, nested)
 			case 1:
 				kvn(&KOp{Kind: "WriteUpdateWithXattrs", Cb: &Callback{Kind: "result", Val: sp(pick(r, jsonBodies)), Xs: genXs(r, false)}}, toucher())
-			case 2:
-				kvn(&KOp{Kind: "WriteSubDoc", Path: pick(r, subdocPaths), CasMode: pick(r, []string{"zero", "zero", "current"}), Val: sp(pick(r, subdocVals[:3]))}, nested)
+			case 2, 4:
+				kvn(&KOp{Kind: "WriteSubDoc", Path: pick(r, subdocPaths), CasMode: pick(r, []string{"zero", "zero", "zero", "current"}), Val: sp(pick(r, subdocVals[:3]))}, nested)
 			default:
 				kvn(&KOp{Kind: "SubdocInsert", Path: pick(r, subdocPaths), CasMode: "zero", Val: sp(pick(r, subdocVals[:3]))}, nested)
 			}
@@ -724,12 +712,13 @@ func genMotif(r *rand.Rand, m int, in *kvInput, exists map[string]bool, hot []st
 // view query parameters: every combination of stale, descending, limit, startkey, endkey, inclusive_end, key
 func genViewParams(r *rand.Rand) *ViewParams {
 	vp := &ViewParams{}
-	keys := []string{`1`, `2`, `"k2"`, `"k1"`, `"k3"`, `[1,"k2"]`, `[1]`, `[2,1]`, `[1,1]`, `0`}
-	if r.Intn(3) == 0 {
+	// mostly keys that the map functions emit for the documents of the universe, so that bounds fall ON rows
+	keys := []string{`1`, `2`, `0`, `"k1"`, `"k2"`, `"k3"`, `"k2"`, `1`, `[1,"k2"]`, `[1]`, `[2,1]`, `[1,1]`, `[0,"k1"]`, `[2,"k3"]`}
+	if r.Intn(4) == 0 {
 		return vp
 	}
 	vp.Stale = r.Intn(8) == 0
-	vp.Descending = r.Intn(3) == 0
+	vp.Descending = r.Intn(2) == 0
 	if r.Intn(4) == 0 {
 		vp.Limit = 1 + r.Intn(3)
 	}
@@ -740,7 +729,7 @@ func genViewParams(r *rand.Rand) *ViewParams {
 	if r.Intn(2) == 0 {
 		vp.StartKey = sp(pick(r, keys))
 	}
-	if r.Intn(2) == 0 {
+	if r.Intn(3) > 0 {
 		vp.EndKey = sp(pick(r, keys))
 		vp.ExclusiveEnd = r.Intn(2) == 0
 	}
